@@ -465,7 +465,7 @@ const WRAPS: [(&str, &str, &str); 7] = [
     ("component-body", "{% <box> %}", "{% </box> %}"),
 ];
 
-const PLACEMENTS: [&str; 12] = [
+const PLACEMENTS: [&str; 16] = [
     "top",
     "ancestor-block",
     "include",
@@ -478,6 +478,11 @@ const PLACEMENTS: [&str; 12] = [
     "grandparent-block",
     "component-in-component",
     "include-from-component-body",
+    // call chains longer than any fixed small number: every call site must be named, outermost last
+    "include-chain-9",
+    "include-chain-17",
+    "component-chain-12",
+    "mixed-chain-15",
 ];
 
 const ARGS_DEF: &str = "s, n, z, big, t, f, arr, strs, m, obj";
@@ -646,6 +651,53 @@ fn plant(fault: &Fault, placement: &str, pre: (&str, &str), suf: (&str, &str), w
             calls.push(("entry.html".to_string(), r, "include:inc.html".to_string()));
             entry = "entry.html";
             fault_tpl = "inc.html";
+        }
+        pl if pl.starts_with("include-chain-") || pl.starts_with("component-chain-") || pl.starts_with("mixed-chain-") => {
+            // entry -> c1 -> c2 -> ... -> c(n-1) -> fault template; link i is an include, a component
+            // call, or alternates. Each caller has its call on a different line/column.
+            let n: usize = pl.rsplit('-').next().unwrap().parse().unwrap();
+            let kind = |i: usize| -> bool {
+                // true: link i (from caller i to callee i+1) is a component call
+                if pl.starts_with("include") { false } else if pl.starts_with("component") { true } else { i % 2 == 1 }
+            };
+            // innermost callee holds the fault: template inc.html (include) or component w<n>
+            let last_is_comp = kind(n - 1);
+            if last_is_comp {
+                place("comps.html", &format!("x é\n{{% component w{n}({ARGS_DEF}) %}}"), &format!("{{% endcomponent w{n} %}}"), &mut t, &mut stmt, &mut token);
+                fault_tpl = "comps.html";
+            } else {
+                place("inc.html", "", "", &mut t, &mut stmt, &mut token);
+                fault_tpl = "inc.html";
+            }
+            // callers from the innermost (i = n-1) to the outermost (i = 0)
+            for i in (0..n).rev() {
+                let callee_comp = kind(i);
+                let tag = if callee_comp {
+                    format!("{{{{ <w{} {ARGS_PASS}/> }}}}", i + 1)
+                } else if i == n - 1 {
+                    "{% include \"inc.html\" %}".to_string()
+                } else {
+                    format!("{{% include \"c{}.html\" %}}", i + 1)
+                };
+                let pad = format!("{}{}", "\n".repeat(i % 4), " ".repeat(i % 5));
+                // is caller i itself a component body (reached by a component link) or a template (reached by an include)?
+                let caller_is_comp = i > 0 && kind(i - 1);
+                let what = if callee_comp { format!("component:w{}", i + 1) } else if i == n - 1 { "include:inc.html".to_string() } else { format!("include:c{}.html", i + 1) };
+                if caller_is_comp {
+                    let head = format!("{{% component w{i}({ARGS_DEF}) %}}{pad}{}", if i == n - 1 { cpre.1 } else { "" });
+                    let (c, r) = caller(&head, &tag, &format!("{{% endcomponent w{i} %}}"));
+                    let name = format!("k{i}.html");
+                    t.push((name.clone(), c));
+                    calls.push((name, r, what));
+                } else {
+                    let name = if i == 0 { "entry.html".to_string() } else { format!("c{i}.html") };
+                    let head = format!("{pad}{}", if i == n - 1 { cpre.1 } else { "é " });
+                    let (c, r) = caller(&head, &tag, " after");
+                    t.push((name.clone(), c));
+                    calls.push((name, r, what));
+                }
+            }
+            entry = "entry.html";
         }
         other => panic!("placement {other}"),
     }
